@@ -125,10 +125,18 @@ def build_harness(binname, profile='dev'):
 
 
 def coq_makefile():
+    """Makefile from _CoqProject restricted to the listed files that exist (a listed file that is missing - generated files before
+    the first regeneration, a file another session is about to add - must not stop the targets that do not depend on it; a target
+    that does depend on it fails in make as before)."""
     mk = os.path.join(COQ, 'Makefile')
     proj = os.path.join(COQ, '_CoqProject')
-    if not os.path.exists(mk) or os.path.getmtime(mk) < os.path.getmtime(proj):
-        rc, out = run(['coq_makefile', '-f', '_CoqProject', '-o', 'Makefile'], cwd=COQ)
+    eff = os.path.join(COQ, '_CoqProject.build')
+    lines = [l for l in open(proj) if not l.strip().endswith('.v') or os.path.exists(os.path.join(COQ, l.strip()))]
+    txt = ''.join(lines)
+    if not os.path.exists(mk) or not os.path.exists(eff) or open(eff).read() != txt:
+        with open(eff, 'w') as fh:
+            fh.write(txt)
+        rc, out = run(['coq_makefile', '-f', '_CoqProject.build', '-o', 'Makefile'], cwd=COQ)
         if rc != 0:
             raise RuntimeError('coq_makefile failed: ' + out)
 
